@@ -4,6 +4,7 @@ pub mod swiftness_stark {
 //@include stark/types.rs
 //@include stark/oods.rs
 //@include stark/commit.rs
+//@include stark/fs_lemmas.rs
 //@include stark/verify.rs
 //@include stark/stark.rs
 } // mod swiftness_stark
